@@ -4,6 +4,7 @@ import (
 	"encoding/json"
 	"errors"
 	"io"
+	"math/rand"
 
 	"github.com/wrgl/wrgl/pkg/ref"
 )
@@ -18,6 +19,9 @@ type c11Input struct {
 	A      int       `json:"a,omitempty"`
 	B      int       `json:"b,omitempty"`
 	Inputs []int     `json:"inputs,omitempty"`
+	// rmanc: the frontier is started from Queue and advanced by Steps pops before RemoveAncestors(Inputs)
+	Queue []int `json:"queue,omitempty"`
+	Steps int   `json:"steps,omitempty"`
 }
 
 func graphNontrivial(g []GCommit) bool {
@@ -100,6 +104,66 @@ func c11Seek(bg *BuiltGraph, inputs []int) Res {
 	})
 }
 
+// c11Frontier builds the frontier the fetch negotiator holds: a queue started from `starts` and
+// advanced by `steps` PopInsertParents calls.
+func c11Frontier(bg *BuiltGraph, starts []int, steps int) (*ref.CommitsQueue, error) {
+	sums := [][]byte{}
+	for _, s := range starts {
+		sums = append(sums, bg.Sums[s])
+	}
+	q, err := ref.NewCommitsQueue(bg.DB, sums)
+	if err != nil {
+		return nil, err
+	}
+	for i := 0; i < steps; i++ {
+		if _, _, err := q.PopInsertParents(); err != nil {
+			if errors.Is(err, io.EOF) {
+				break
+			}
+			return nil, err
+		}
+	}
+	return q, nil
+}
+
+func c11Drain(bg *BuiltGraph, q *ref.CommitsQueue) []int {
+	out := []int{}
+	for len(out) <= 100000 {
+		sum, _, err := q.Pop()
+		if err != nil {
+			break
+		}
+		out = append(out, bg.IDs[string(sum)])
+	}
+	return out
+}
+
+// c11RemoveAncestors: the third ancestry query of commits_queue.go. Two identical frontiers are
+// built; one is drained as it is ("before"), the other after RemoveAncestors(inputs) ("after").
+func c11RemoveAncestors(bg *BuiltGraph, starts []int, steps int, inputs []int) Res {
+	return Guard(func() Res {
+		if steps < 0 || steps > 1000 {
+			steps = 0
+		}
+		q0, err := c11Frontier(bg, starts, steps)
+		if err != nil {
+			return Err("error")
+		}
+		q1, err := c11Frontier(bg, starts, steps)
+		if err != nil {
+			return Err("error")
+		}
+		sums := [][]byte{}
+		for _, s := range inputs {
+			sums = append(sums, bg.Sums[s])
+		}
+		if err := q1.RemoveAncestors(sums); err != nil {
+			return Err("error")
+		}
+		return Ok(map[string]interface{}{"before": c11Drain(bg, q0), "after": c11Drain(bg, q1)})
+	})
+}
+
 func seekTags(in []int) []string {
 	if len(in) >= 3 {
 		return []string{"inputs>=3"}
@@ -147,6 +211,24 @@ func runC11(ctx *Ctx) {
 		}
 		ctx.Emit("seek", c11Input{Graph: g, Inputs: in}, c11Seek(bg, in), nt, seekTags(in)...)
 	}
+	// RemoveAncestors on a frontier of this graph; drawn from a stream of its own so that the cases
+	// above are what they were
+	r2 := rand.New(rand.NewSource(ctx.Seed*7919 + int64(ctx.Idx)*31 + 11))
+	for k := 0; k < 2; k++ {
+		st := make([]int, 1+r2.Intn(3))
+		for i := range st {
+			st[i] = 1 + r2.Intn(n)
+		}
+		steps := 0
+		if k == 1 {
+			steps = r2.Intn(3)
+		}
+		in := make([]int, 1+r2.Intn(2))
+		for i := range in {
+			in[i] = 1 + r2.Intn(n)
+		}
+		ctx.Emit("rmanc", c11Input{Graph: g, Queue: st, Steps: steps, Inputs: in}, c11RemoveAncestors(bg, st, steps, in), nt, "remove-ancestors")
+	}
 }
 
 func corpusC11(ctx *Ctx, op string, raw json.RawMessage) {
@@ -168,5 +250,7 @@ func corpusC11(ctx *Ctx, op string, raw json.RawMessage) {
 		ctx.Emit(op, in, c11WalkN(bg, in.Inputs), nt)
 	case "seek":
 		ctx.Emit(op, in, c11Seek(bg, in.Inputs), nt, seekTags(in.Inputs)...)
+	case "rmanc":
+		ctx.Emit(op, in, c11RemoveAncestors(bg, in.Queue, in.Steps, in.Inputs), nt, "remove-ancestors")
 	}
 }
